@@ -144,9 +144,16 @@ pub fn run(c: &FrCase) -> Result<Vec<String>, String> {
         }));
     }
     // open the gate only after every thread is about to call (or inside) flush()
-    let deadline = std::time::Instant::now() + Duration::from_secs(10);
+    let deadline = std::time::Instant::now() + Duration::from_secs(5);
     while entering.load(Ordering::SeqCst) < nthreads as u64 && std::time::Instant::now() < deadline {
         std::thread::yield_now();
+    }
+    if entering.load(Ordering::SeqCst) < nthreads as u64 {
+        // creating and finishing a handful of spans took more than 5 s while a collector cycle
+        // was parked inside Reporter::report(): those tracing calls block on the collector
+        results.lock().unwrap().push(
+            "BLOCKED: a thread's tracing calls (first use of the API on that thread) did not complete within 5 s while a collector cycle was in progress inside Reporter::report()".to_string(),
+        );
     }
     std::thread::sleep(Duration::from_micros(c.delay_us as u64));
     *g.open.lock().unwrap() = true;
